@@ -159,7 +159,8 @@ def run_impl(case, work, tag="src"):
         try:
             a = cls(src(), filters=d, **sel_kw(case))
             out["ctor"] = {"ok": [[pid_of(case, p, idmap) for p in ev] for ev in a.particle_objects_list()],
-                           "counts": counts_column(a), "nev": int(a.num_events())}
+                           "counts": counts_column(a), "nev": int(a.num_events()),
+                           "data": [[p.data_.tolist() for p in ev] for ev in a.particle_objects_list()]}
         except Exception as e:
             out["ctor"] = {"exc": c03.exn_name(e)}
         try:
@@ -167,7 +168,8 @@ def run_impl(case, work, tag="src"):
             for k, v in d.items():
                 call_method(b, k, v)
             out["meth"] = {"ok": [[pid_of(case, p, idmap) for p in ev] for ev in b.particle_objects_list()],
-                           "counts": counts_column(b), "nev": int(b.num_events())}
+                           "counts": counts_column(b), "nev": int(b.num_events()),
+                           "data": [[p.data_.tolist() for p in ev] for ev in b.particle_objects_list()]}
         except Exception as e:
             out["meth"] = {"exc": c03.exn_name(e)}
         # the chain alone, on the first loaded event: the real __apply_kwargs_filters
@@ -187,7 +189,11 @@ def run_impl(case, work, tag="src"):
 
 # ----------------------------------------------------------------------------------------- property oracle
 def admissible_calls(case, base_objs):
-    """every entry is a documented call of a filter the class has, with distinct names, and no accessor raises"""
+    """every entry is a documented call of a filter the class has, with distinct names, and no accessor raises
+    (decided by c03.expected on the case's own particle data: the selected events of case['events'])"""
+    specs = sliced(case, case["events"])
+    if [len(e) for e in specs] != [len(e) for e in base_objs]:
+        specs = None          # (the loader handed over something else: c03 falls back to the objects' raw slots)
     keys = [k for k, _ in case["filters"]]
     if len(set(keys)) != len(keys):
         return False
@@ -205,10 +211,10 @@ def admissible_calls(case, base_objs):
             args = [A_of(v[0]), A_of(v[1])]
         else:
             args = [a]
-        if c03.expected({"filter": k, "args": args, "events": []}, base_objs) is None:
+        if c03.expected({"filter": k, "args": args, "events": []}, base_objs, specs) is None:
             return False
     for k, a in case["filters"]:
-        if k in SWITCH and c03.expected({"filter": k, "args": [], "events": []}, base_objs) is None:
+        if k in SWITCH and c03.expected({"filter": k, "args": [], "events": []}, base_objs, specs) is None:
             return False
     return True
 
@@ -260,6 +266,12 @@ def oracle(case, work=None):
         ne_m = [e for e in m["ok"] if e]
         if ne_c != ne_m:
             return f"{desc}: non-empty events differ: constructor {ne_c}, methods {ne_m} (particles by id)"
+        # "same particles": not only the same ids in the same places, every stored attribute value is the same
+        for ec, em, ids in zip([e for e in c["data"] if e], [e for e in m["data"] if e], ne_m):
+            for rc, rm, i in zip(ec, em, ids):
+                if not np.array_equal(np.asarray(rc, dtype=float), np.asarray(rm, dtype=float), equal_nan=True):
+                    return (f"{desc}: particle {i} survives on both paths but its stored values differ: "
+                            f"constructor {rc}, methods {rm}")
         pc = [n for n in c["counts"] if n != 0]
         pm = [n for n in m["counts"] if n != 0]
         want = [len(e) for e in ne_m]
@@ -536,7 +548,8 @@ def correspondence(ctx, model_ok=True):
             continue
         for j, x in enumerate(cs):
             if x in names:
-                gg = {k: v for k, v in g.items() if k != "obs"}
+                gg = {k: ({a: b for a, b in v.items() if a != "data"} if isinstance(v, dict) else v)
+                      for k, v in g.items() if k != "obs"}
                 out["failures"].append(Failure(c, f"{kind(c)}: model and implementation disagree on the {part[j]} "
                                                   f"({names[x]}): impl={gg}"))
                 break
@@ -545,7 +558,7 @@ def correspondence(ctx, model_ok=True):
     dist["outside_modelled_domain"] = outside
     # the property itself on the real code, for every case (cheap)
     bad = 0
-    for i, c in enumerate(cases):
+    for i, c in enumerate(cases + list(_oracle_only_cases(ctx.rng))):
         msg = oracle(c, ctx.work)
         if msg:
             bad += 1
@@ -572,13 +585,31 @@ def _probe_cases(rng):
                     yield dict(base, filters=[[k, v]])
                     if base["filters"] and base["filters"][0][0] != k:
                         yield dict(base, filters=[[k, v]] + base["filters"][:1])
+            # a dictionary whose switches are all False (nothing may happen), alone and in front of a real entry;
+            # the first and the last event as the selection
+            sw = [k for k in KEYS[cls] if k in SWITCH]
+            off = [[k, {"t": "bool", "v": False}] for k in rng.sample(sw, 3)]
+            yield dict(base, filters=off)
+            yield dict(base, filters=off + [kv for kv in base["filters"] if kv[0] not in [o[0] for o in off]][:1])
+            n = len(base["events"])
+            for sel in (0, n - 1, [0, 0], [n - 1, n - 1], [0, n - 1]):
+                yield dict(base, sel=sel)
+
+
+def _oracle_only_cases(rng):
+    """dictionaries the property quantifies over that the model side cannot render (an empty Coq list has no type):
+    filters={} is a constructor call like any other - equivalent to calling no method"""
+    for cls in CLASSES:
+        base = gen_case(rng, cls=cls, admissible_only=True)
+        yield dict(base, filters=[])
+        yield dict(base, filters=[], sel=len(base["events"]) - 1)
 
 
 def search(ctx):
     found, n = [], 0
     budget = 400 if ctx.quick else 3000
     seen = set()
-    probes = list(_probe_cases(ctx.rng))
+    probes = list(_probe_cases(ctx.rng)) + list(_oracle_only_cases(ctx.rng))
     for i in range(budget + len(probes)):
         c = probes[i] if i < len(probes) else gen_case(ctx.rng, admissible_only=(i % 6 != 0))
         n += 1
